@@ -225,8 +225,13 @@ def oracle(case):
                                 if view(got) != view(truth_before) or docs(got) != docs(truth_before):
                                     r.fail("truth-changed", "the truth's own interface changed: %s -> %s" % (view(truth_before), view(got)))
                             elif not _conforms(got, truth_before, k, truth):
-                                if p9_target:
+                                # P9 is about targets that EXIST and differ (they are left as they were); a missing /
+                                # empty top-level function file is created from the truth and must conform (a created
+                                # argparse file is bounded by what argparse can express, P13, and stays relaxed)
+                                if p9_target and (states[k] == "present" or k == "argparse_function" or method):
                                     r.covered("P9")
+                                elif p9_target and _conforms(got, truth_before, k, truth, sig_only=True):
+                                    r.covered("P9")  # created function: names / order / types / defaults are strict, the prose stays relaxed
                                 else:
                                     r.fail("not-conformed", "truth=%s target=%s(%s): %s vs truth %s" % (truth, k, states[k], view(got), view(truth_before)))
                     if states[k] == "present":
@@ -249,7 +254,7 @@ def oracle(case):
     return r
 
 
-def _conforms(got, truth_ir, kind, truth_kind):
+def _conforms(got, truth_ir, kind, truth_kind, sig_only=False):
     """names, order, types, defaults (+type) and descriptions of the target equal the truth's, under the per-format
     normalisations of C02/C03 (function '=None'; argparse's zero-value classes are P13, kept out by comparing only
     parameters that have a default or are Optional when argparse is involved)"""
@@ -260,12 +265,14 @@ def _conforms(got, truth_ir, kind, truth_kind):
         lossy = "argparse_function" in (kind, truth_kind) or "function" in (kind, truth_kind)
         if lossy and d2 == ("str", "<absent>"):
             continue  # parameter without default: '=None' / zero-value normalisations (C02, P13, P14) apply
-        if lossy and d1 != d2 and d1 == ("str", gen_ir.NoneStr):
-            continue
+        if lossy and d1 != d2 and d1 == ("str", gen_ir.NoneStr) and kind != "function":
+            continue  # (a function target keeps every real default of the truth: only an ABSENT default becomes None)
         if t1 == "Optional[%s]" % t2 and d2 == ("str", gen_ir.NoneStr) and truth_kind == "function" and is_open("P14"):
             continue  # P14: the '=None' of a function parameter widens the type on the way into a class / argparse
         if t1 != t2 or d1 != d2:
             return False
+    if sig_only:
+        return True
     if docs(got) != docs(truth_ir):
         return False
     # the return entry (type; description up to whitespace) travels with the interface
